@@ -20,8 +20,14 @@ CHECKS = {
              "two's-complement value; header/TLV/bool/octet-string round trips for every readable tag, every length < 256^126 and "
              "any trailing bytes (exact consumption); lenient long-form lengths. The model is tied to the code by a correspondence "
              "run (≈9k requests quick) and the same grid is checked directly against int.to_bytes/from_bytes."
-             " Added after the statement audit (Props/C07More): on ARBITRARY input every reader consumes exactly header + declared length, its value depends only on that prefix, and every strict prefix fails with not-enough-data (no over-read).",
-        technique="Lean 4 proof (induction on base-256 digits) + model/implementation correspondence",
+             " Added after the statement audit (Props/C07More): on ARBITRARY input every reader consumes exactly header + declared length, its value depends only on that prefix, and every strict prefix fails with not-enough-data (no over-read)."
+             " SECOND TIE (translator): the nine BER primitive functions of asn1.py are translated statement by statement from the Python AST into Lean on every run "
+             "(harness/py2lean.py -> Generated/Asn1Gen.lean) and Props/TiesAsn1.lean proves, for all inputs and all sufficient fuel, that each generated function "
+             "returns exactly what the hand-written model's function returns (same value, same error class) — so the C07 theorems are about what the source says now; "
+             "the generated definitions are also run against the real functions (54k cases) to validate the translator. When this tie is not in force (a function left "
+             "the translated subset, or a tie theorem no longer checks) the check says so (NOTE line, evidence.second_tie), searches at thorough scale, and the property "
+             "stays decided by the theorems + the correspondence tie.",
+        technique="Lean 4 proof (induction on base-256 digits) + Python-AST-to-Lean translator with equality theorems (generated = model) + model/implementation correspondence",
         ref="DESIGN.md §4 C07",
     ),
 }
@@ -217,10 +223,14 @@ CHECKS.update({
              "one (Props/C18Filter.lean), and receive's parse loop has one proved to make at most (messages returned + 1) <= n/2 + 1 decode attempts "
              "(Props/C18Recv.lean), and the BER filter decoder one proved to make at most n/2 + 1 LDAPFilter.unpack calls (Props/C18Decode.lean); "
              "the three counts are compared with the implementation's (profiler hook) and executed source lines "
-             "are checked against 100(n+1)^2+5000 on nested / wide / broken families (filter, schema post-processing, receive). Not covered by a "
-             "theorem: constants of CPython's engine, the cost of one message decode and the schema post-processing (step-counted and timed only)."
+             "are checked against 100(n+1)^2+5000 on nested / wide / broken families (filter, schema post-processing, receive). Added: step-counting twins of the whole message decoder (Model/MsgSteps.lean; Props/C18Msg.lean: same result, steps <= 18(n+1) for every input, a "
+             "whole receive of several messages likewise; with big-integer word costs 18(n+1)+3(n+1)^2, attained by the INTEGER / tag-number accumulation loops) and of "
+             "the schema from_string post-processing (Model/SchemaCost.lean; Props/C18Schema.lean: same result, own steps <= 72/64/77 (n+1)^2 with the square attained "
+             "by _parse_extensions, totals with the proved pattern bounds cubic), both tied to the code by executed-line counts on growing families; every octet value "
+             "in every text position of a message is delivered under a CPU guard. Not covered by a theorem: constants of CPython's engine; the scanner's own linear bound "
+             "(stated, evaluated, not proved: the regular-expression charge is used instead)."
              " Added (Props/SmallMore): explicit numerals for every pattern (every_pattern_explicit: 10934917·(n+1)^3; attribute pattern 347·(n+1)^2), no_unsupported. Timing is measured in CPU seconds with re-measurement; an untakeable measurement is exit 2.",
-        technique="Lean 4 proof (cost calculus for backtracking search trees; per-pattern bounds on translated regexes; call-count bound of the filter parser) + translator + deterministic step counts + timing search",
+        technique="Lean 4 proof (cost calculus for backtracking search trees; per-pattern bounds on translated regexes; step-counting models of the filter text parser, the message decoder, the receive loop and the schema post-processing with explicit polynomial bounds) + translator + deterministic line counts + timing search",
         ref="DESIGN.md STATUS and §4 C18",
     ),
 })
